@@ -53,14 +53,31 @@ def gp_open_py(closed, O, tol=3):
     return True
 
 
+def open_self_clear_py(O, tol=3):
+    """python mirror of OpenClipSpec.open_self_clear (pre-filter only): every open vertex is >= tol from every open
+    segment it is not an end of by index"""
+    for pi, p in enumerate(O):
+        for vi, v in enumerate(p):
+            for qi, q in enumerate(O):
+                for ei, (a, b) in enumerate(open_edges(q)):
+                    if pi == qi and (ei == vi or ei + 1 == vi):
+                        continue
+                    if not seg_far(tol, 1, v, a, b):
+                        return False
+    return True
+
+
 def count_crossings(closed, O):
     ces = [e for p in closed for e in cyc_edges(p)]
     return sum(1 for p in O for a, b in open_edges(p) for c, d in ces if proper(a, b, c, d))
 
 
 # ----------------------------------------------------------------------------- open polyline families
-FAMILIES = ['walk', 'through', 'inside-out', 'zigzag-flat', 'axis', 'shared-y', 'spike', 'loop', 'near-edge', 'two-point',
-            'flat-extremum', 'flat-extremum', 'horz-spike']
+FAMILIES = ['walk', 'through', 'inside-out', 'zigzag-flat', 'axis', 'shared-y', 'near-edge', 'two-point',
+            'flat-extremum', 'flat-extremum']
+# polylines that are NOT in general position among themselves (overlapping collinear segments, first = last): outside the
+# quantifier of C05; generated for a minority of the cases and evaluated as observations only
+DEGENERATE_FAMILIES = ['spike', 'loop', 'horz-spike', 'horz-spike']
 
 
 def _interior_point(rng, closed, box):
@@ -118,7 +135,12 @@ def open_path(rng, closed, box, fam):
         pts.append((x, y))
         d = rng.choice([-1, 1])
         for i in range(rng.range(1, 3)):
-            x = x + d * rng.range(20, 2 * box)
+            nx = x + d * rng.range(20, 2 * box)
+            lim = box + 60 - rng.range(0, 20)       # stay in the box: the regimes scale by up to 2^53 and |coordinates| must stay <= 2^61
+            nx = max(-lim, min(lim, nx))
+            if abs(nx - x) < 5:
+                break
+            x = nx
             pts.append((x, y))
             if fam == 'horz-spike':
                 d = -d
@@ -220,10 +242,11 @@ def gen_open_case(rng, box=120, tries=60):
             continue
         O, fams = [], []
         want = rng.range(1, 3)
+        degenerate = rng.chance(1, 8)      # a minority of cases outside the hypothesis (observed, never a violation)
         for _ in range(tries):
-            fam = rng.choice(FAMILIES)
+            fam = rng.choice(DEGENERATE_FAMILIES if degenerate and not O else FAMILIES)
             p = dedup(open_path(rng, closed, box, fam))
-            if len(p) >= 2 and gp_open_py(closed, [p]):
+            if len(p) >= 2 and gp_open_py(closed, [p]) and (degenerate or open_self_clear_py(O + [p])):
                 O.append(p)
                 fams.append(fam)
                 if len(O) >= want:
@@ -238,13 +261,47 @@ def gen_open_case(rng, box=120, tries=60):
 
 
 def horz_spike(O):
-    """classifier: some open path has two consecutive horizontal segments of opposite direction"""
+    """label for observations outside the hypothesis: some open path has two consecutive horizontal segments of opposite
+    direction (a horizontal 180-degree spike; DoHorizontal meets the maxima pair too early, see triage/C05.md)"""
     for p in O:
         for i in range(len(p) - 2):
             a, b, c = p[i], p[i + 1], p[i + 2]
             if a[1] == b[1] == c[1] and (b[0] - a[0]) * (c[0] - b[0]) < 0:
                 return True
     return False
+
+
+def rounding_bound(S, C, O):
+    """How far binary64 evaluation can put a cut point from the exact crossing (classification of failures on
+    coordinates >= 2^53 only; exact rational arithmetic, result rounded up to an integer number of units).
+
+    The engine computes a crossing of two input segments p1p2, q1q2 as p1 + t*(p2 - p1) with
+    t = N/det, N = (p1-q1).x*d2.y - (p1-q1).y*d2.x, det = d1.y*d2.x - d2.y*d1.x in doubles (GetSegmentIntersectPt; either
+    segment can be the first).  With unit roundoff u = 2^-53 the standard first-order forward error of that expression is
+      |err t|   <= 4u * kappa + u,   kappa = (|A*d2.y| + |B*d2.x| + |d1.y*d2.x| + |d2.y*d1.x|) / |det|   (A, B = p1 - q1)
+      |err x|   <= L*(4u*kappa + 2u) + 2u*M + 1,   L = max |d1| component, M = max |coordinate| (conversion of p1.x to
+                   double, the final addition, truncation to int64)
+    TopX / GetClosestPointOnSegment (used at horizontals and when the point falls outside the scanbeam) stay below the same
+    bound.  The bound returned is 2 (second-order terms, the CLIPPER2_HI_PRECISION variant of the formula) * 1.5 (> sqrt 2,
+    both coordinates) times that: ceil((L*(4*kappa + 2) + 2*M) / 2^51) + 3, maximised over all proper open x closed crossings
+    and both roles."""
+    from fractions import Fraction
+    M = polys.maxabs([S, C, O])
+    worst = Fraction(2 * M)
+    ces = [e for p in S + C for e in cyc_edges(p)]
+    for p in O:
+        for a, b in open_edges(p):
+            for c, d in ces:
+                if not proper(a, b, c, d):
+                    continue
+                for (p1, p2, q1, q2) in ((a, b, c, d), (c, d, a, b)):
+                    d1x, d1y, d2x, d2y = p2[0] - p1[0], p2[1] - p1[1], q2[0] - q1[0], q2[1] - q1[1]
+                    det = d1y * d2x - d2y * d1x
+                    A, B = p1[0] - q1[0], p1[1] - q1[1]
+                    kappa = Fraction(abs(A * d2y) + abs(B * d2x) + abs(d1y * d2x) + abs(d2y * d1x), abs(det))
+                    L = max(abs(d1x), abs(d1y))
+                    worst = max(worst, L * (4 * kappa + 2) + 2 * M)
+    return -((-worst.numerator) // (worst.denominator * 2 ** 51)) + 3
 
 
 def scale_open(O, tf):
